@@ -470,7 +470,7 @@ impl Exec {
         None
     }
 
-    /// Root-cause attribution (DESIGN.md 6.12): if the real backend, during the current operation,
+    /// Root-cause attribution (DESIGN.md 6.13): if the real backend, during the current operation,
     /// answered Infeasible for a row-normalized system that the exact LP proves FAT, the violation
     /// class says so - that is what the open backend finding is keyed on.
     fn attribute(&self, class: &str, detail: String) -> (String, String) {
